@@ -123,7 +123,8 @@ def run_case(case, ctx):
         util.write_file(only, idx)
         ref = without['read_metadata']
         for m, fn in (('read', lambda: TdmsFile.read(only)), ('open', lambda: TdmsFile.open(only)), ('read_metadata', lambda: TdmsFile.read_metadata(only)),
-                      ('stream', lambda: TdmsFile.open(io.BytesIO(idx)))):
+                      ('stream', lambda: TdmsFile.open(io.BytesIO(idx))), ('read-stream', lambda: TdmsFile.read(io.BytesIO(idx))),
+                      ('ctor-stream', lambda: TdmsFile(io.BytesIO(idx))), ('read_metadata-stream', lambda: TdmsFile.read_metadata(io.BytesIO(idx)))):
             ctx.count('index_only_opens')
             try:
                 tf = fn()
